@@ -1678,4 +1678,309 @@ theorem comment_firstPres (rep : Nat → Bool) (ha : AsciiRep rep) : FirstPres r
       (seqDet_of_tight (tight_starCls true [(42, 42)] cR2Re (fun c t _ h => cR2_ms_notStar c t h)))
   exact firstPres_seq_same hslash (firstPres_seq_same hstar h1)
 
+
+/-! ## the shape of `HEX` for a character outside ASCII: at least two digits, no leading zero, and two digits only
+from `80` on — so the letter escapes `\55 \75 \52 \72 \4c \6c` of URI / UNICODE-RANGE never swallow a whole escape -/
+
+theorem hexDigit_ne_zero : ∀ d : Fin 16, 0 < d.val → EncEscape.hexDigit d.val ≠ 48 := by decide
+
+theorem hexDigit_ge8 : ∀ d : Fin 16, 8 ≤ d.val → 56 ≤ EncEscape.hexDigit d.val := by decide
+
+theorem hexDigitsF_head (fuel : Nat) : ∀ n, 0 < n → n ≤ fuel →
+    ∃ d tl, EncEscape.hexDigitsF fuel n = d :: tl ∧ d ≠ 48 := by
+  induction fuel with
+  | zero => intro n h1 h2; omega
+  | succ f ih =>
+    intro n h1 h2
+    simp only [EncEscape.hexDigitsF]
+    split
+    · rename_i h
+      exact ⟨_, [], rfl, hexDigit_ne_zero ⟨n, h⟩ h1⟩
+    · rename_i h
+      have hlt : n / 16 < n := Nat.div_lt_self h1 (by decide)
+      obtain ⟨d, tl, e, hd⟩ := ih (n / 16) (by omega) (by omega)
+      exact ⟨d, tl ++ [EncEscape.hexDigit (n % 16)], by rw [e]; rfl, hd⟩
+
+theorem hexDigitsF_len2 (fuel : Nat) (n : Nat) (h16 : 16 ≤ n) (hf : n ≤ fuel) :
+    2 ≤ (EncEscape.hexDigitsF fuel n).length := by
+  cases fuel with
+  | zero => omega
+  | succ f =>
+    simp only [EncEscape.hexDigitsF]
+    rw [if_neg (by omega)]
+    have := hexDigitsF_ne_nil f (n / 16)
+    simp only [List.length_append, List.length_singleton]
+    cases h : EncEscape.hexDigitsF f (n / 16) with
+    | nil => exact absurd h this
+    | cons a b => simp
+
+theorem hexDigitsF_len3 (fuel : Nat) (n : Nat) (h : 256 ≤ n) (hf : n ≤ fuel) :
+    3 ≤ (EncEscape.hexDigitsF fuel n).length := by
+  cases fuel with
+  | zero => omega
+  | succ f =>
+    simp only [EncEscape.hexDigitsF]
+    rw [if_neg (by omega)]
+    have hlt : n / 16 < n := Nat.div_lt_self (by omega) (by decide)
+    have := hexDigitsF_len2 f (n / 16) (by omega) (by omega)
+    simp only [List.length_append, List.length_singleton]
+    omega
+
+/-- `HEX` of a character outside ASCII -/
+theorem hexDigits_shape (c : Nat) (h : 128 ≤ c) :
+    ∃ d1 d2 tl, hexDigits c = d1 :: d2 :: tl ∧ d1 ≠ 48 ∧ (tl = [] → 56 ≤ d1) := by
+  obtain ⟨d1, r, e, hd1⟩ := hexDigitsF_head c c (by omega) (Nat.le_refl _)
+  have hlen := hexDigitsF_len2 c c (by omega) (Nat.le_refl _)
+  rw [e] at hlen
+  cases r with
+  | nil => simp at hlen
+  | cons d2 tl =>
+    refine ⟨d1, d2, tl, e, hd1, ?_⟩
+    intro htl
+    subst htl
+    by_cases h256 : 256 ≤ c
+    · have := hexDigitsF_len3 c c h256 (Nat.le_refl _)
+      rw [e] at this; simp at this
+    · -- two digits: the first is the digit of `c / 16 ≥ 8`
+      obtain ⟨f, hf⟩ : ∃ f, c = f + 1 := ⟨c - 1, by omega⟩
+      have e2 : EncEscape.hexDigitsF c c = EncEscape.hexDigitsF f (c / 16) ++ [EncEscape.hexDigit (c % 16)] := by
+        rw [hf]; simp only [EncEscape.hexDigitsF]; rw [if_neg (by omega)]
+      have hq : c / 16 < 16 := by omega
+      have e3 : EncEscape.hexDigitsF f (c / 16) = [EncEscape.hexDigit (c / 16)] := by
+        cases f with
+        | zero => omega
+        | succ f' => simp only [EncEscape.hexDigitsF]; rw [if_pos hq]
+      rw [e2, e3] at e
+      simp only [List.cons_append, List.nil_append, List.cons.injEq] at e
+      rw [← e.1]
+      exact hexDigit_ge8 ⟨c / 16, hq⟩ (by simp only; omega)
+
+
+/-! ## the letters `{U} {R} {L}` of URI / UNICODE-RANGE (`u|\\0{0,4}(55|75)(\r\n|[ \t\r\n\f])?|\\u`) -/
+
+/-- `Same` for texts that start with a representable character -/
+def SameH (rep : Nat → Bool) (f : Cps → List Nat) : Prop :=
+  ∀ s, Good rep s → (∀ c t, s = c :: t → rep c = true) →
+    f (escape rep s) = f s ∧ ∀ l ∈ f s, ∀ c ∈ s.take l, rep c = true
+
+theorem Same.toH {rep : Nat → Bool} {f : Cps → List Nat} (h : Same rep f) : SameH rep f := fun s _ _ => h s
+
+theorem sameH_alt {rep : Nat → Bool} {a b : Re} (ha : SameH rep a.ms) (hb : SameH rep b.ms) :
+    SameH rep (Re.alt a b).ms := by
+  intro s hs hh
+  refine ⟨by simp [Re.ms, (ha s hs hh).1, (hb s hs hh).1], ?_⟩
+  intro l hl
+  simp only [Re.ms, List.mem_append] at hl
+  rcases hl with hl | hl
+  · exact (ha s hs hh).2 l hl
+  · exact (hb s hs hh).2 l hl
+
+theorem sameH_seq_bs {rep : Nat → Bool} {X : Re} (hX : Same rep X.ms) : SameH rep (Re.seq bsRe X).ms := by
+  intro s _ hh
+  cases s with
+  | nil => simp [escape, seq_bs_ms_nil]
+  | cons c t =>
+    have hc := hh c t rfl
+    rw [escape_cons_rep t hc, seq_bs_ms, seq_bs_ms]
+    by_cases h92 : c = 92
+    · simp only [h92, if_true, (hX t).1, true_and]
+      intro l hl x hx
+      simp only [List.mem_map] at hl
+      obtain ⟨l2, hl2, rfl⟩ := hl
+      rw [Nat.add_comm, List.take_succ_cons, List.mem_cons] at hx
+      rcases hx with rfl | hx
+      · rw [← h92]; exact hc
+      · exact (hX t).2 l2 hl2 x hx
+    · simp [h92]
+
+theorem firstPresH_seq_sameH {rep : Nat → Bool} {a b : Re} (ha : SameH rep a.ms) (hb : FirstPres rep b) :
+    FirstPresH rep (Re.seq a b) := by
+  intro s hs hh
+  rw [first_seq_findSome, first_seq_findSome, (ha s hs hh).1, findSome_map]
+  apply findSome_congr
+  intro l1 hl1
+  have hbd := Re.ms_bounded a s l1 hl1
+  have hr := (ha s hs hh).2 l1 hl1
+  rw [drop_escape_of_rep rep s l1 hbd hr, hb _ (hs.drop l1)]
+  cases b.first (s.drop l1) with
+  | none => rfl
+  | some l2 => simp [elen_add, elen_id rep s l1 hbd hr]
+
+def wsOpt2Re : Re := Re.rep (Re.alt (Re.seq (Re.cls false [(13, 13)]) (Re.cls false [(10, 10)]))
+  (Re.cls false [(32, 32), (9, 9), (13, 13), (10, 10), (12, 12)])) 0 1 true
+def zerosRe : Re := Re.rep (Re.cls false [(48, 48)]) 0 4 true
+def pairRe (a1 a2 : Nat) : Re := Re.seq (Re.cls false [(a1, a1)]) (Re.cls false [(a2, a2)])
+def letterEscRe (a1 a2 b1 b2 : Nat) : Re := Re.seq zerosRe (Re.seq (Re.alt (pairRe a1 a2) (pairRe b1 b2)) wsOpt2Re)
+def letterRe (X x a1 a2 b1 b2 : Nat) : Re :=
+  Re.alt (Re.cls false [(X, X)]) (Re.alt (Re.cls false [(x, x)])
+    (Re.alt (Re.seq bsRe (letterEscRe a1 a2 b1 b2))
+      (Re.alt (Re.seq bsRe (Re.cls false [(X, X)])) (Re.seq bsRe (Re.cls false [(x, x)])))))
+
+/-- the parameters of a letter: ASCII, not the backslash, the letter itself not an upper-case hex digit, its code
+written with a first digit below `8` -/
+structure LetterOk (X x a1 a2 b1 b2 : Nat) : Prop where
+  ascii : asciiPos (Re.alt (Re.cls false [(X, X)]) (Re.alt (Re.cls false [(x, x)]) (letterEscRe a1 a2 b1 b2))) = true
+  nhX : EncEscape.isUpperHex X = false
+  nhx : EncEscape.isUpperHex x = false
+  lo : a1 < 56 ∧ b1 < 56
+
+theorem zeros_ms_nz (d : Nat) (z : Cps) (h : d ≠ 48) : zerosRe.ms (d :: z) = [0] := by
+  simp [zerosRe, Re.ms, Re.repMs, inCls_single, h]
+
+theorem pair_ms (a1 a2 d1 d2 : Nat) (w : Cps) :
+    (pairRe a1 a2).ms (d1 :: d2 :: w) = if d1 = a1 ∧ d2 = a2 then [2] else [] := by
+  simp only [pairRe, Re.ms, inCls_single]
+  by_cases h1 : d1 = a1 <;> by_cases h2 : d2 = a2 <;> simp [h1, h2]
+
+theorem wsOpt2_ms_upper (d : Nat) (w : Cps) (h : EncEscape.isUpperHex d = true) : wsOpt2Re.ms (d :: w) = [0] := by
+  simp only [EncEscape.isUpperHex, Bool.or_eq_true, Bool.and_eq_true, decide_eq_true_eq] at h
+  have h13 : d ≠ 13 := by omega
+  have hws : Re.inCls false [(32, 32), (9, 9), (13, 13), (10, 10), (12, 12)] d = false := by
+    have := inCls_pts false [32, 9, 13, 10, 12] d
+    simp only [List.map_cons, List.map_nil] at this
+    rw [this]
+    simp only [List.contains_cons, List.contains_nil, Bool.or_false, bne_iff_ne, ne_eq, Bool.not_eq_false,
+      Bool.or_eq_true, beq_iff_eq, Bool.bne_false] 
+    simp only [Bool.or_eq_false_iff, beq_eq_false_iff_ne]
+    omega
+  simp [wsOpt2Re, Re.ms, Re.repMs, inCls_single, h13, hws]
+
+/-- on `\ HEX SPACE …` a letter matches at most `\` + two digits, and then a third digit follows -/
+theorem letter_ms_esc (X x a1 a2 b1 b2 : Nat) (hL : LetterOk X x a1 a2 b1 b2) (d1 d2 : Nat) (tl y : Cps)
+    (hd1 : EncEscape.isUpperHex d1 = true) (hz : d1 ≠ 48) (htl : ∀ d ∈ tl, EncEscape.isUpperHex d = true)
+    (h2 : tl = [] → 56 ≤ d1) :
+    ∀ l ∈ (letterRe X x a1 a2 b1 b2).ms (92 :: d1 :: d2 :: (tl ++ 32 :: y)),
+      ∃ d3 w, (92 :: d1 :: d2 :: (tl ++ 32 :: y)).drop l = d3 :: w ∧ EncEscape.isUpperHex d3 = true := by
+  have hX : d1 ≠ X := by intro e; rw [e, hL.nhX] at hd1; cases hd1
+  have hx : d1 ≠ x := by intro e; rw [e, hL.nhx] at hd1; cases hd1
+  have hasc := hL.ascii
+  simp only [asciiPos, Bool.and_eq_true, List.all_cons, List.all_nil, Bool.not_eq_true', decide_eq_true_eq,
+    Bool.and_true, Bool.and_eq_false_iff, decide_eq_false_iff_not] at hasc
+  have hX92 : (92 : Nat) ≠ X := by have := hasc.1.2; omega
+  have hx92 : (92 : Nat) ≠ x := by have := hasc.2.1.2; omega
+  intro l hl
+  generalize hw : tl ++ 32 :: y = w at hl ⊢
+  have hms : (letterRe X x a1 a2 b1 b2).ms (92 :: d1 :: d2 :: w) =
+      ((letterEscRe a1 a2 b1 b2).ms (d1 :: d2 :: w)).map (1 + ·) := by
+    show (Re.cls false [(X, X)]).ms (92 :: d1 :: d2 :: w) ++ ((Re.cls false [(x, x)]).ms (92 :: d1 :: d2 :: w) ++
+      ((Re.seq bsRe (letterEscRe a1 a2 b1 b2)).ms (92 :: d1 :: d2 :: w) ++
+        ((Re.seq bsRe (Re.cls false [(X, X)])).ms (92 :: d1 :: d2 :: w) ++
+          (Re.seq bsRe (Re.cls false [(x, x)])).ms (92 :: d1 :: d2 :: w)))) = _
+    rw [seq_bs_ms, seq_bs_ms, seq_bs_ms]
+    simp [Re.ms, inCls_single, hX92, hx92, hX, hx]
+  rw [hms] at hl
+  simp only [List.mem_map] at hl
+  obtain ⟨l2, hl2, rfl⟩ := hl
+  have hE : (letterEscRe a1 a2 b1 b2).ms (d1 :: d2 :: w) =
+      ((pairRe a1 a2).ms (d1 :: d2 :: w) ++ (pairRe b1 b2).ms (d1 :: d2 :: w)).flatMap
+        (fun l1 => (wsOpt2Re.ms ((d1 :: d2 :: w).drop l1)).map (l1 + ·)) := by
+    show (zerosRe.ms (d1 :: d2 :: w)).flatMap _ = _
+    rw [zeros_ms_nz d1 _ hz]
+    simp [Re.ms]
+  rw [hE, pair_ms, pair_ms] at hl2
+  simp only [List.mem_flatMap, List.mem_map, List.mem_append] at hl2
+  obtain ⟨l1, hl1, l3, hl3, rfl⟩ := hl2
+  have hl1' : l1 = 2 ∧ d1 < 56 := by
+    rcases hl1 with h | h <;> split at h <;> simp at h
+    · rename_i hp; exact ⟨h, by have := hL.lo.1; omega⟩
+    · rename_i hp; exact ⟨h, by have := hL.lo.2; omega⟩
+  obtain ⟨rfl, hlow⟩ := hl1'
+  cases tl with
+  | nil => have := h2 rfl; omega
+  | cons d3 tl' =>
+    have hd3 := htl d3 List.mem_cons_self
+    subst hw
+    simp only [List.drop_succ_cons, List.drop_zero, List.cons_append] at hl3
+    rw [wsOpt2_ms_upper d3 _ hd3] at hl3
+    simp only [List.mem_singleton] at hl3
+    subst hl3
+    exact ⟨d3, tl' ++ 32 :: y, rfl, hd3⟩
+
+
+theorem letter_sameH (rep : Nat → Bool) (ha : AsciiRep rep) (X x a1 a2 b1 b2 : Nat) (hL : LetterOk X x a1 a2 b1 b2) :
+    SameH rep (letterRe X x a1 a2 b1 b2).ms := by
+  have hasc := hL.ascii
+  simp only [asciiPos, Bool.and_eq_true] at hasc
+  have hX : Same rep (Re.cls false [(X, X)]).ms :=
+    asciiPos_sound rep ha _ (by simp only [asciiPos, Bool.and_eq_true]; exact hasc.1)
+  have hx : Same rep (Re.cls false [(x, x)]).ms :=
+    asciiPos_sound rep ha _ (by simp only [asciiPos, Bool.and_eq_true]; exact hasc.2.1)
+  have hE : Same rep (letterEscRe a1 a2 b1 b2).ms := asciiPos_sound rep ha _ hasc.2.2
+  exact sameH_alt hX.toH (sameH_alt hx.toH (sameH_alt (sameH_seq_bs hE)
+    (sameH_alt (sameH_seq_bs hX) (sameH_seq_bs hx))))
+
+theorem letter_ms_unrep (X x a1 a2 b1 b2 : Nat) (hL : LetterOk X x a1 a2 b1 b2) (c : Nat) (t : Cps) (h : 128 ≤ c) :
+    (letterRe X x a1 a2 b1 b2).ms (c :: t) = [] := by
+  have hasc := hL.ascii
+  simp only [asciiPos, Bool.and_eq_true, List.all_cons, List.all_nil, Bool.not_eq_true', decide_eq_true_eq,
+    Bool.and_true, Bool.and_eq_false_iff, decide_eq_false_iff_not] at hasc
+  have hX : c ≠ X := by have := hasc.1.1; omega
+  have hx : c ≠ x := by have := hasc.2.1.1; omega
+  have h92 : c ≠ 92 := by omega
+  show (Re.cls false [(X, X)]).ms (c :: t) ++ ((Re.cls false [(x, x)]).ms (c :: t) ++
+    ((Re.seq bsRe (letterEscRe a1 a2 b1 b2)).ms (c :: t) ++
+      ((Re.seq bsRe (Re.cls false [(X, X)])).ms (c :: t) ++
+        (Re.seq bsRe (Re.cls false [(x, x)])).ms (c :: t)))) = []
+  rw [seq_bs_ms, seq_bs_ms, seq_bs_ms]
+  simp [Re.ms, inCls_single, hX, hx, h92]
+
+/-- a letter followed by something that cannot start with a hex digit keeps its first match -/
+theorem letter_seq_firstPres (rep : Nat → Bool) (ha : AsciiRep rep) (X x a1 a2 b1 b2 : Nat)
+    (hL : LetterOk X x a1 a2 b1 b2) (Y : Re) (hY : FirstPres rep Y)
+    (hns : ∀ c t, EncEscape.isUpperHex c = true → Y.ms (c :: t) = []) :
+    FirstPres rep (Re.seq (letterRe X x a1 a2 b1 b2) Y) := by
+  have hH := firstPresH_seq_sameH (letter_sameH rep ha X x a1 a2 b1 b2 hL) hY
+  intro s hs
+  cases s with
+  | nil => exact hH [] hs (by intro c t e; cases e)
+  | cons c t =>
+    cases hc : rep c with
+    | true => exact hH (c :: t) hs (by intro c' t' e; cases e; exact hc)
+    | false =>
+      have h128 := unrep_ge ha hc
+      rw [first_seq_none (letter_ms_unrep X x a1 a2 b1 b2 hL c t h128)]
+      obtain ⟨d1, d2, tl, hH', hz, h2⟩ := hexDigits_shape c h128
+      have hup := EncEscape.hexDigits_upper c
+      rw [hH'] at hup
+      have e : escape rep (c :: t) = 92 :: d1 :: d2 :: (tl ++ 32 :: escape rep t) := by
+        simp [escape, hc, escChar, hH']
+      rw [e]
+      apply first_none_of_ms_nil
+      apply seq_ms_nil
+      intro l hl
+      obtain ⟨d3, w, hd, hd3⟩ := letter_ms_esc X x a1 a2 b1 b2 hL d1 d2 tl (escape rep t)
+        (hup d1 List.mem_cons_self) hz
+        (fun d hd => hup d (List.mem_cons_of_mem _ (List.mem_cons_of_mem _ hd))) h2 l hl
+      rw [hd]
+      exact hns d3 w hd3
+
+/-! ## UNICODE-RANGE -/
+
+def uLetter : Re := letterRe 85 117 53 53 55 53
+def rLetter : Re := letterRe 82 114 53 50 55 50
+def lLetter : Re := letterRe 76 108 52 99 54 99
+
+theorem uLetter_ok : LetterOk 85 117 53 53 55 53 := ⟨by decide, by decide, by decide, by decide⟩
+theorem rLetter_ok : LetterOk 82 114 53 50 55 50 := ⟨by decide, by decide, by decide, by decide⟩
+theorem lLetter_ok : LetterOk 76 108 52 99 54 99 := ⟨by decide, by decide, by decide, by decide⟩
+
+def urTailRe : Re := match reUNICODE_RANGE with
+  | .seq _ t => t
+  | _ => .eps
+
+theorem reUNICODE_RANGE_shape : reUNICODE_RANGE = Re.seq uLetter urTailRe := by decide
+
+theorem upperHexRanges (c : Nat) (h : EncEscape.isUpperHex c = true) : inR [(48, 57), (65, 70)] c = true := by
+  simp only [EncEscape.isUpperHex, Bool.or_eq_true, Bool.and_eq_true, decide_eq_true_eq] at h
+  simp only [inR, List.any_cons, List.any_nil, Bool.or_false, Bool.or_eq_true, Bool.and_eq_true, decide_eq_true_eq]
+  omega
+
+/-- UNICODE-RANGE keeps its first match -/
+theorem unicodeRange_firstPres (rep : Nat → Bool) (ha : AsciiRep rep) : FirstPres rep reUNICODE_RANGE := by
+  rw [reUNICODE_RANGE_shape]
+  apply letter_seq_firstPres rep ha _ _ _ _ _ _ uLetter_ok
+  · exact firstPres_of_same (asciiPos_sound rep ha _ (by decide))
+  · intro c t hc
+    exact noStart_sound (cs := [(48, 57), (65, 70)]) (by decide) (upperHexRanges c hc) t
+
 end CssVerif.EncTok
